@@ -286,6 +286,9 @@ func (d *V2) Exec(cmd *Cmd) (o Outcome) {
 	curID = cmd.ID
 	defer func() {
 		if r := recover(); r != nil {
+			if simrt.IsAbort(r) {
+				panic(r)
+			}
 			o = Outcome{}
 			o.Class, o.Err = classifyPanic(r)
 		}
